@@ -76,6 +76,64 @@ type instr struct {
 	rangeCh map[*ast.RangeStmt]bool
 	lenCap  map[*ast.CallExpr]string
 	funcs   []funcSpan
+	mapAcc  map[ast.Expr]memKind // map-typed operand expressions whose map object is read / written here
+}
+
+func (in *instr) isMap(e ast.Expr) bool {
+	t := in.info.TypeOf(e)
+	if t == nil {
+		return false
+	}
+	_, ok := t.Underlying().(*types.Map)
+	return ok
+}
+
+// scanMaps finds map reads and writes: m[k], m[k] = v, m[k]++, delete(m,k), clear(m), range m, len(m).
+func (in *instr) scanMaps(f *ast.File) {
+	ast.Inspect(f, func(n ast.Node) bool {
+		switch x := n.(type) {
+		case *ast.AssignStmt:
+			for _, l := range x.Lhs {
+				if ix, ok := unparen(l).(*ast.IndexExpr); ok && in.isMap(ix.X) {
+					in.mapAcc[ix.X] = memWrite
+				}
+			}
+		case *ast.IncDecStmt:
+			if ix, ok := unparen(x.X).(*ast.IndexExpr); ok && in.isMap(ix.X) {
+				in.mapAcc[ix.X] = memWrite
+			}
+		case *ast.IndexExpr:
+			if in.isMap(x.X) {
+				if _, done := in.mapAcc[x.X]; !done {
+					in.mapAcc[x.X] = memRead
+				}
+			}
+		case *ast.RangeStmt:
+			if in.isMap(x.X) {
+				in.mapAcc[x.X] = memRead
+			}
+		case *ast.CallExpr:
+			if id, ok := x.Fun.(*ast.Ident); ok && len(x.Args) >= 1 && in.isMap(x.Args[0]) {
+				switch id.Name {
+				case "delete", "clear":
+					in.mapAcc[x.Args[0]] = memWrite
+				case "len":
+					in.mapAcc[x.Args[0]] = memRead
+				}
+			}
+		}
+		return true
+	})
+}
+
+func (in *instr) wrapMap(orig, e ast.Expr, k memKind) ast.Expr {
+	fn := "MR"
+	if k == memWrite {
+		fn = "MW"
+	}
+	pos := in.fset.Position(orig.Pos())
+	sites = append(sites, fmt.Sprintf("map:%s:%s:%s", shortFile(pos.Filename), in.funcAt(orig.Pos()), types.ExprString(orig)))
+	return call(sel("mc", fn), e, intLit(len(sites)-1))
 }
 
 type funcSpan struct {
@@ -296,10 +354,22 @@ func transformFile(in *instr, fset *token.FileSet, f *ast.File, mem bool) {
 	post := func(c *astutil.Cursor) bool {
 		if mem {
 			if e, ok := c.Node().(ast.Expr); ok {
+				mk, isMapOperand := in.mapAcc[e]
 				if k, ok := in.decide[e]; ok {
 					delete(in.decide, e)
 					used = true
-					c.Replace(in.wrap(e, k))
+					var w ast.Expr = in.wrap(e, k)
+					if isMapOperand {
+						delete(in.mapAcc, e)
+						w = in.wrapMap(e, w, mk)
+					}
+					c.Replace(w)
+					return true
+				}
+				if isMapOperand {
+					delete(in.mapAcc, e)
+					used = true
+					c.Replace(in.wrapMap(e, e, mk))
 					return true
 				}
 			}
@@ -498,12 +568,13 @@ func main() {
 			fmt.Println("MCGEN-LOAD-FAILED (the tree does not type-check):", p.Errors)
 			os.Exit(3)
 		}
-		in := &instr{info: p.TypesInfo, pkg: p.Types, fset: p.Fset, decide: map[ast.Expr]memKind{}, rangeCh: map[*ast.RangeStmt]bool{}, lenCap: map[*ast.CallExpr]string{}}
+		in := &instr{info: p.TypesInfo, pkg: p.Types, fset: p.Fset, decide: map[ast.Expr]memKind{}, rangeCh: map[*ast.RangeStmt]bool{}, lenCap: map[*ast.CallExpr]string{}, mapAcc: map[ast.Expr]memKind{}}
 		for _, f := range p.Syntax {
 			path := p.Fset.Position(f.Package).Filename
 			in.prescan(f)
 			if mem {
 				in.scan(f)
+				in.scanMaps(f)
 			}
 			transformFile(in, p.Fset, f, mem)
 			var buf bytes.Buffer
